@@ -86,6 +86,27 @@ func genSchema(repo string) *genFile {
 	}
 	g.pf("]\n\n")
 
+	// named slice / alias types: type Nodes []*Node, type Tags []Tag, type NodeID int64 ...
+	var aliases []string
+	for _, fn := range p.sortedFiles() {
+		for _, d := range p.files[fn].Decls {
+			gd, ok := d.(*ast.GenDecl)
+			if !ok || gd.Tok != token.TYPE {
+				continue
+			}
+			for _, s := range gd.Specs {
+				ts := s.(*ast.TypeSpec)
+				switch ts.Type.(type) {
+				case *ast.StructType, *ast.InterfaceType, *ast.FuncType:
+				default:
+					aliases = append(aliases, ts.Name.Name+"="+typeText(ts.Type))
+				}
+			}
+		}
+	}
+	sort.Strings(aliases)
+	g.pf("def namedTypes : List String := %s\n\n", leanStrList(aliases))
+
 	// custom methods
 	var methods []string
 	for _, fn := range p.sortedFiles() {
